@@ -47,6 +47,8 @@ def build(case, labels=None):
     with gcheck.GraphConfig(use_graph_primitive=int(bool(case["prim"])) if case.get("intflags") else bool(case["prim"])):
         if form == "grid":
             h, w = case["shape"]
+            if case.get("before"):
+                gcheck.warm_grid(tuple(case["before"]))
             d = s.int_array((h, w), 0, R - 1)
             if case["roots"] is not None:
                 kw["roots"] = [None if r is None else (r // w, r % w) for r in case["roots"]]
@@ -172,6 +174,13 @@ def scale_cases(tier):
                 out.append({"form": "grid", "shape": [h, w], "R": R, "roots": None, "allow_empty": allow_empty, "prim": prim, "labelings": labelings})
         out.append({"form": "array1d", "n": h * w, "edges": graphref.orient(graphref.grid_edges(h, w), 3), "R": R, "roots": [order[0][0] * w + order[0][1]] + [None] * (R - 1),
                     "allow_empty": False, "prim": False, "labelings": labelings})
+    # board histories: board B right after board A in the same process
+    for a, b in gcheck.grid_history_pairs(tier):
+        h, w = b
+        cells = [(y, x) for y in range(h) for x in range(w)]
+        labs = [[0 if (x < (w + 1) // 2 if w > 1 else y < (h + 1) // 2) else 1 for (y, x) in cells], [0 if (y < (h + 1) // 2 if h > 1 else x < (w + 1) // 2) else 1 for (y, x) in cells],
+                [1 if c in ((0, 0), (h - 1, w - 1)) else 0 for c in cells], [0] * (h * w)]
+        out.append({"form": "grid", "shape": [h, w], "R": 2, "roots": None, "allow_empty": False, "prim": False, "before": list(a), "labelings": labs})
     for n in ((300,) if tier == "quick" else (257, 258, 300, 520)):
         path = [(i, i + 1) for i in range(n - 1)]
         halves = [0 if i < n // 2 else 1 for i in range(n)]
